@@ -128,3 +128,7 @@ package js
 //@   loop * candidate l.r.pos > old(l.r.pos)
 //@   loop * candidate l.r.start == old(l.r.start)
 //@   loop * decreases len(l.r.buf) - l.r.pos
+//@   requires[T] l.r.start == l.r.pos
+//@   ensures[T,C02] @tile: result0 != ErrorToken ==> sameMem(result1, l.r.buf[old(l.r.pos):l.r.pos]) && cap(result1) == len(result1) && len(result1) > 0 && l.r.start == l.r.pos
+//@   ensures[T,C02] @errtok: result0 == ErrorToken && result1 != nil ==> sameMem(result1, l.r.buf[old(l.r.pos):l.r.pos]) && cap(result1) == len(result1) && l.r.start == l.r.pos
+//@   ensures[T,C02] @frame: sameBytes()
